@@ -1,17 +1,23 @@
 (* C13 - text and binary encodings round-trip every Decimal exactly.  Statements only; proofs in
-   Proofs/TextProofs.v.
-   PROVEN: the coefficient digit string printed by every text format denotes the coefficient again
-   (digits only, never empty); every non-finite value (NaN, sNaN, Infinity of either sign, whatever
-   their coefficient/exponent fields) round-trips through String(); String() is to-scientific-string.
-   NOT PROVEN for finite values (decided on the implementation): parse(format(d)) = d field-wise for
-   String/Text('G','g','E','e')/MarshalText/Value/%v/%s/%G/%E/%e, numeric value and sign for Text('f'),
-   Compose(Decompose(d)) = d, and SetFloat64/Float64 bit-exact round trips - every generated Decimal
+   Proofs/TextProofs.v, Proofs/RoundTrip.v, Proofs/RoundTripFull.v.
+   PROVEN, for every Decimal (any coefficient length, either sign, signed zeros, every exponent):
+   - the parser inverts the formatter field for field: setString(Text(fmt)) = d for fmt in G, g, E, e (String,
+     MarshalText, Value, %v %s %G %E %e print Text('G') or Text('E'/'e')), over every branch of Append (plain
+     notation with and without leading "0.000", the split dd.ddd, exponent 0, scientific notation with one or
+     many digits, either exponent sign, the written-out zeros down to exponent -2000);
+   - Text('f') re-parses to the same sign and numeric value (a positive exponent comes back as zeros);
+   - NewFromString / SetString / UnmarshalText / Scan (BaseContext: setExponent, then Round with Precision 0)
+     return exactly d, no condition, no error, whenever exponent and adjusted exponent are inside the package
+     limits;
+   - every non-finite value (NaN, sNaN, Infinity of either sign, whatever coefficient/exponent fields they
+     carry) round-trips through String(); the coefficient digit string denotes the coefficient.
+   NOT PROVEN (decided on the implementation by the harness): Compose(Decompose(d)) = d and the SetFloat64 /
+   Float64 bit-exact round trips (strconv's shortest-digit formatting is not modelled); and that the Go code
+   IS this model - checked by correspondence, byte for byte / field for field, on every generated Decimal
    (switch-over points -6/-7, zeros at -1/-2000/-2001, exponents at the package limits, pad lengths at
-   multiples of 32, coefficients of any length) is formatted by the implementation, re-parsed by the
-   implementation, and compared; the model of formatter and parser is compared byte for byte / field
-   for field on the same cases. *)
+   multiples of 32, coefficients of any length). *)
 From Coq Require Import ZArith Bool List.
-From Apd Require Import Generated.Consts Model.Base Model.NumDigits Model.Decimal Model.Context Model.Text Spec.Grammar Proofs.TextProofs.
+From Apd Require Import Generated.Consts Model.Base Model.NumDigits Model.Decimal Model.Context Model.Text Spec.Grammar Proofs.Core Proofs.SetExponent Proofs.TextProofs Proofs.RoundTrip Proofs.RoundTripFull.
 Open Scope Z_scope.
 
 Theorem C13_coefficient_digits_roundtrip n : 0 <= n -> digits_val (digits_of n) = n /\ is_digits (digits_of n) = true.
@@ -22,6 +28,33 @@ Theorem C13_special_values_roundtrip d : form_of d <> Finite ->
   set_string_raw (format_G d) = Some (mkDec (form_of d) (neg d) 0 0).
 Proof. exact (specials_roundtrip d). Qed.
 Print Assumptions C13_special_values_roundtrip.
+
+(* the parser inverts Text('G'/'g'/'E'/'e'): identical form, sign, coefficient and exponent.  exp_printable:
+   the adjusted exponent is printable as an int32 (true of everything inside the package limits, see below) *)
+Theorem C13_parse_inverts_format fmtc d : fmtc = ch_G \/ fmtc = ch_g \/ fmtc = ch_E \/ fmtc = ch_e ->
+  form_of d = Finite -> 0 <= coeff d -> exp_printable d ->
+  set_string_raw (format_text fmtc d) = Some d.
+Proof. exact (text_roundtrip fmtc d). Qed.
+Print Assumptions C13_parse_inverts_format.
+
+Theorem C13_exp_printable_within_2_pow_30 d : 0 <= coeff d -> - 2 ^ 30 < exp d < 2 ^ 30 -> Z.log2 (coeff d) < 2 ^ 30 -> exp_printable d.
+Proof. exact (exp_printable_ok d). Qed.
+Print Assumptions C13_exp_printable_within_2_pow_30.
+
+(* Text('f'): same sign and numeric value *)
+Theorem C13_text_f_value_roundtrip d : form_of d = Finite -> 0 <= coeff d ->
+  set_string_raw (format_text ch_f d) =
+    Some (if exp d <? 0 then d else mkDec Finite (neg d) 0 (coeff d * 10 ^ exp d)).
+Proof. exact (text_f_roundtrip d). Qed.
+Print Assumptions C13_text_f_value_roundtrip.
+
+(* the whole entry point: NewFromString(d.Text(fmt)) = (d, no condition, nil) inside the package limits *)
+Theorem C13_new_from_string_roundtrip est : est_in_range est -> forall fmtc d,
+  fmtc = ch_G \/ fmtc = ch_g \/ fmtc = ch_E \/ fmtc = ch_e ->
+  form_of d = Finite -> 0 <= coeff d -> in_lim (exp d) -> in_lim (exp d + ndigits (coeff d) - 1) ->
+  new_from_string est (format_text fmtc d) = Ok (Some (d, c0, ENone)).
+Proof. exact (new_from_string_roundtrip est). Qed.
+Print Assumptions C13_new_from_string_roundtrip.
 
 Example C13_finite_examples :
   (set_string_raw (format_G (mkDec Finite true (-7) 1)), set_string_raw (format_G (mkDec Finite false (-2000) 0)),
